@@ -108,6 +108,19 @@ type Guard struct {
 	File        string
 }
 
+// DataInv is a representation invariant of the design model: `datainv T.f label: EXPR` (or `datainv elems(T)
+// label: EXPR`) says what every value stored in field f of a T (every element of a []T) satisfies; `value` is the
+// stored value, `object` the struct pointer. Functions under `opt safety full` ASSUME it of values they read from
+// objects they did not allocate themselves and must ESTABLISH it at every store they execute.
+type DataInv struct {
+	Field string // "T.f" or "elems(T)"
+	Pkg   string
+	Label string
+	Expr  *CExpr
+	Src   string
+	File  string
+}
+
 type GhostVar struct {
 	Name string
 	Sort Sort
@@ -141,6 +154,7 @@ type Specs struct {
 	Lemmas    []*Lemma
 	Axioms    []*Lemma
 	Guards    []*Guard
+	DataInvs  []*DataInv
 	Files     []string
 	Macros    map[string]*Macro
 	// GlobalFacts: heap key of a dependency's package-level variable -> predicate assumed of every value read from it
@@ -398,6 +412,17 @@ func (sp *Specs) loadSpecFile(path, pkg string) error {
 					return fail(l, "%v", err)
 				}
 				sp.Guards = append(sp.Guards, g)
+			case "datainv":
+				name, r2 := splitWord(rest)
+				i := strings.Index(r2, ":")
+				if i < 0 {
+					return fail(l, "datainv T.f label: EXPR")
+				}
+				e, err := parseCExpr(r2[i+1:])
+				if err != nil {
+					return fail(l, "%v", err)
+				}
+				sp.DataInvs = append(sp.DataInvs, &DataInv{Field: name, Pkg: pkg, Label: strings.TrimSpace(r2[:i]), Expr: e, Src: strings.TrimSpace(r2[i+1:]), File: l.pos})
 			case "axiom":
 				i := strings.Index(rest, ":")
 				if i < 0 {
